@@ -41,7 +41,8 @@ def recognisedGuards : List String :=
    "full slice", "index by a loop counter into a slice made with that length",
    "index by a range key into a slice made with that length", "index by a sort callback argument",
    "index by the counter of a loop bounded by len of the same slice", "index by the key of a range over the same slice",
-   "index from the end under a length check", "Must call in a function used only by package-level initialisers", "slice from one past a strings index of the same string",
+   "index from the end under a length check", "index found by a search in the same slice, known to be non-negative",
+   "index by SubexpIndex of a declared group into the non-nil submatch of the same expression", "Must call in a function used only by package-level initialisers", "slice from one past a strings index of the same string",
    "slice past a prefix under an equality or HasPrefix check", "type assertion in comma-ok form"]
 
 /-- **every panic-capable construct of the tool is guarded in a recognised way or is one of the reviewed ones** — the
